@@ -13,6 +13,10 @@
 (*                   before? next ligating fragment? - are folded into it)     *)
 (*   GSend           c <- construct   (rendezvous with the collector's        *)
 (*                   receive, which also de-duplicates up to rotation/strand) *)
+(*   GPut / CollTake the same hand-off through a buffered channel of capacity *)
+(*                   ChanCap > 0 (the alternative the code's own comment      *)
+(*                   mentions: "A buffered channel is needed to prevent       *)
+(*                   blocking"); ChanCap = 0 is the code as built             *)
 (*   GExit           deferred wg.Done()                                       *)
 (*   CollFinish      collector sees the closed channel and offers its list    *)
 (*                                                                            *)
@@ -21,9 +25,9 @@
 (* where such a chain keeps spawning: the model then lets the goroutine spin  *)
 (* (Spin) so that the non-termination shows up as a liveness violation.       *)
 EXTENDS Ligation
-CONSTANTS K, UsedCheck, PoolSet
-VARIABLES pool, gs, wg, closed, coll, main, result
-vars == <<pool, gs, wg, closed, coll, main, result>>
+CONSTANTS K, UsedCheck, PoolSet, ChanCap
+VARIABLES pool, gs, wg, closed, coll, main, result, chan
+vars == <<pool, gs, wg, closed, coll, main, result, chan>>
 
 Gids == DOMAIN gs
 Cands == [k \in 1..2 * K |-> <<((k - 1) \div 2) + 1, k % 2 = 1>>]     \* loop order of the code: fragment j forward, then reversed
@@ -36,11 +40,14 @@ AllPools == IF PoolSet = "all"
                   <<[f |-> 1, r |-> 2], [f |-> Co(1), r |-> Co(2)]>>,                            \* second part supplied reversed
                   <<[f |-> 1, r |-> 1], [f |-> 1, r |-> Co(1)]>>,                                \* a ring plus a decoy that enters it
                   <<[f |-> 1, r |-> 2], [f |-> 2, r |-> 3], [f |-> 3, r |-> 2]>>}                \* cycle that excludes the seed
+                 \cup (IF K >= 4 THEN {<<[f |-> 1, r |-> 2], [f |-> 1, r |-> 2], [f |-> 2, r |-> 1], [f |-> 2, r |-> 1]>>,   \* two alternatives in every slot
+                                       <<[f |-> 1, r |-> 2], [f |-> Co(1), r |-> Co(2)], [f |-> 2, r |-> 1], [f |-> 2, r |-> 2]>>} \* flipped alternative + self-closing decoy
+                       ELSE {})
 Init == /\ pool \in AllPools
         /\ gs = <<>> /\ wg = 0 /\ closed = FALSE
         /\ coll = [pc |-> "idle", seen |-> {}, list |-> <<>>]
         /\ main = [pc |-> "seed", i |-> 1]
-        /\ result = <<>>
+        /\ result = <<>> /\ chan = <<>>
 
 FoC(c) == Fo(pool, c[1])
 RoC(c) == Ro(pool, c[Len(c)])
@@ -61,23 +68,23 @@ MainSeed == /\ main.pc = "seed" /\ main.i <= Len(pool)
             /\ wg' = wg + 1
             /\ gs' = Append(gs, NewG(<<<<main.i, TRUE>>>>, {}))
             /\ main' = [main EXCEPT !.i = @ + 1]
-            /\ UNCHANGED <<pool, closed, coll, result>>
+            /\ UNCHANGED <<pool, closed, coll, result, chan>>
 MainStartColl == /\ main.pc = "seed" /\ main.i > Len(pool)
                  /\ coll' = [coll EXCEPT !.pc = "recv"]
                  /\ main' = [main EXCEPT !.pc = "wait"]
-                 /\ UNCHANGED <<pool, gs, wg, closed, result>>
+                 /\ UNCHANGED <<pool, gs, wg, closed, result, chan>>
 MainWait == /\ main.pc = "wait" /\ wg = 0
             /\ main' = [main EXCEPT !.pc = "close"]
-            /\ UNCHANGED <<pool, gs, wg, closed, coll, result>>
+            /\ UNCHANGED <<pool, gs, wg, closed, coll, result, chan>>
 MainClose == /\ main.pc = "close"
              /\ closed' = TRUE
              /\ main' = [main EXCEPT !.pc = "get"]
-             /\ UNCHANGED <<pool, gs, wg, coll, result>>
+             /\ UNCHANGED <<pool, gs, wg, coll, result, chan>>
 MainGet == /\ main.pc = "get" /\ coll.pc = "offer"
            /\ result' = coll.list
            /\ coll' = [coll EXCEPT !.pc = "done"]
            /\ main' = [main EXCEPT !.pc = "returned"]
-           /\ UNCHANGED <<pool, gs, wg, closed>>
+           /\ UNCHANGED <<pool, gs, wg, closed, chan>>
 
 (* wg.Add(1); go recurseLigate(chain + candidate k) *)
 GSpawn(g) == /\ gs[g].st = "looping"
@@ -86,27 +93,39 @@ GSpawn(g) == /\ gs[g].st = "looping"
                 /\ wg' = wg + 1
                 /\ gs' = Append([gs EXCEPT ![g].k = nk, ![g].st = IF nk = 0 THEN "exiting" ELSE "looping"],
                                 NewG(Append(gs[g].chain, Cands[k]), gs[g].used))
-             /\ UNCHANGED <<pool, closed, coll, main, result>>
+             /\ UNCHANGED <<pool, closed, coll, main, result, chan>>
 (* unbuffered hand-off: the send completes only together with the collector's receive *)
-GSend(g) == /\ gs[g].st = "sending" /\ coll.pc = "recv" /\ ~closed
-            /\ LET key == Spellings(gs[g].chain) IN
-               coll' = IF key \in coll.seen THEN coll
-                       ELSE [coll EXCEPT !.seen = @ \cup {key}, !.list = Append(@, gs[g].chain)]
+(* the collector's side of a hand-off: keep the construct unless the same molecule was seen before *)
+Absorb(c, chain) == LET key == Spellings(chain) IN
+                    IF key \in c.seen THEN c ELSE [c EXCEPT !.seen = @ \cup {key}, !.list = Append(@, chain)]
+GSend(g) == /\ ChanCap = 0
+            /\ gs[g].st = "sending" /\ coll.pc = "recv" /\ ~closed
+            /\ coll' = Absorb(coll, gs[g].chain)
             /\ gs' = [gs EXCEPT ![g].st = "exiting"]
-            /\ UNCHANGED <<pool, wg, closed, main, result>>
+            /\ UNCHANGED <<pool, wg, closed, main, result, chan>>
+(* buffered alternative *)
+GPut(g) == /\ ChanCap > 0
+           /\ gs[g].st = "sending" /\ Len(chan) < ChanCap /\ ~closed
+           /\ chan' = Append(chan, gs[g].chain)
+           /\ gs' = [gs EXCEPT ![g].st = "exiting"]
+           /\ UNCHANGED <<pool, wg, closed, coll, main, result>>
+CollTake == /\ coll.pc = "recv" /\ chan # <<>>
+            /\ coll' = Absorb(coll, Head(chan))
+            /\ chan' = Tail(chan)
+            /\ UNCHANGED <<pool, gs, wg, closed, main, result>>
 GExit(g) == /\ gs[g].st = "exiting"
             /\ wg' = wg - 1
             /\ gs' = [gs EXCEPT ![g].st = "done"]
-            /\ UNCHANGED <<pool, closed, coll, main, result>>
+            /\ UNCHANGED <<pool, closed, coll, main, result, chan>>
 (* as first built: a chain longer than any ring of the pool is on a cycle it will never leave *)
 Spinning(g) == ~UsedCheck /\ gs[g].st = "looping" /\ Len(gs[g].chain) > 2 * M
 Spin(g) == Spinning(g) /\ UNCHANGED vars
-CollFinish == /\ coll.pc = "recv" /\ closed
+CollFinish == /\ coll.pc = "recv" /\ closed /\ chan = <<>>
               /\ coll' = [coll EXCEPT !.pc = "offer"]
-              /\ UNCHANGED <<pool, gs, wg, closed, main, result>>
+              /\ UNCHANGED <<pool, gs, wg, closed, main, result, chan>>
 
-GNext(g) == (IF Spinning(g) THEN Spin(g) ELSE GSpawn(g)) \/ GSend(g) \/ GExit(g)
-Next == MainSeed \/ MainStartColl \/ MainWait \/ MainClose \/ MainGet \/ CollFinish \/ \E g \in Gids : GNext(g)
+GNext(g) == (IF Spinning(g) THEN Spin(g) ELSE GSpawn(g)) \/ GSend(g) \/ GPut(g) \/ GExit(g)
+Next == MainSeed \/ MainStartColl \/ MainWait \/ MainClose \/ MainGet \/ CollFinish \/ CollTake \/ \E g \in Gids : GNext(g)
 Spec == Init /\ [][Next]_vars /\ WF_vars(Next)
 
 (* ---- properties ---- *)
